@@ -27,13 +27,20 @@ ASSUMPTIONS = [
     'retransmission timers behave as C19 proves for Timer (fire at expiry unless stopped; restart from the own callback re-arms at now + tau); the replay re-checks the firing instants',
     'closed-loop liveness is proved only in part (see Props/C16.lean, theorems *_partial); the exploration of drop patterns searches for failing inputs and is not presented as the liveness proof',
 ]
-TRUSTED_EXTRA = ['labelling of kernel steps of the sender from taps and public snapshots (harness/tcpsim.py)']
+TRUSTED_EXTRA = ['labelling of kernel steps of the sender from taps and public snapshots (harness/tcpsim.py)',
+                 'py2lean/elem.py + elements.py for TCPSink (typed AST-subset translator; the local list `merge_stats` is seen through its last '
+                 'element; the frame of packet_arrived - append, sort, loop, assignment - is checked structurally and given its meaning by '
+                 'GenSink.genMerge); bridge theorems C16.sink_merge_generated_eq_model, C16.sink_put_generated_eq_model']
+BRIDGES = ['C16.sink_merge_generated_eq_model', 'C16.sink_put_generated_eq_model']
+_PREP = {}
 MSS = 512
 
 
 def prepare(ctx):
-    from py2lean import translate
-    translate.regenerate_all()
+    from py2lean import translate, elements
+    _PREP['translated'] = elements.TRANSLATED['Sink']
+    _PREP['rewritten'] = translate.regenerate_all(only=('TcpCC', 'Sink'))
+    _PREP['diff_vs_pinned'] = translate.diff_vs_pinned('Sink')
 
 
 # ---- sink ---------------------------------------------------------------------------------------------------
@@ -417,8 +424,11 @@ def run(ctx):
         'traces_validated_against_impl': len(cases) - len({json.dumps(d['case'], sort_keys=True) for d in disagreements}),
         'sender_observation_lines_compared': lines_compared,
         'operation_histogram': dict(sorted(hist.items())),
-        'translated': translate.TRANSLATED,
-        'hand_modelled': ['TCPSink.packet_arrived', 'TCPSink.put', 'TCPPacketGenerator.put (dup-ACK dispatch, timer cancellation)',
+        'translated': translate.TRANSLATED + _PREP.get('translated', []),
+        'generated_files_rewritten': _PREP.get('rewritten', []), 'generated_diff_vs_pinned': _PREP.get('diff_vs_pinned', []),
+        'bridge_theorems': BRIDGES,
+        'hand_modelled': ['TCPSink.packet_arrived (list.sort and the loop frame; its body is translated)',
+                          'PacketSink.put (the statistics of the base class)', 'TCPPacketGenerator.put (dup-ACK dispatch, timer cancellation)',
                           'TCPPacketGenerator.timeout_callback', 'TCPPacketGenerator.resend_packet', 'TCPPacketGenerator.run (loop)'],
     }
     return {'coverage': cov, 'disagreements': disagreements, 'oracle_failures': oracle_failures}
